@@ -347,7 +347,14 @@ def drive_builder(R, c):
             else:
                 b.add_kernel(objs[int(arg)])
         b.set_initial_values(state0)
-        b.set_epochs([EpochConfig(EpochType.INITIAL_VALUES, 1, 1, None), EpochConfig(EpochType.POSTERIOR, c["T"], 1, None)])
+        if c.get("interleave"):
+            # two epochs, so that results can be asked for between them
+            t1 = max(1, c["T"] // 2)
+            eps = [EpochConfig(EpochType.BURNIN, t1, 1, None), EpochConfig(EpochType.POSTERIOR, c["T"] - t1, 1, None)]
+            eps = [e for e in eps if e.duration > 0]
+        else:
+            eps = [EpochConfig(EpochType.POSTERIOR, c["T"], 1, None)]
+        b.set_epochs([EpochConfig(EpochType.INITIAL_VALUES, 1, 1, None)] + eps)
         b.positions_included = [names[k] for k in stored if names[k] not in keyset]
         b.show_progress = False
         return b
@@ -357,7 +364,16 @@ def drive_builder(R, c):
         # that build assigned
         builder_with(["set:new"] + [f"add:{j}" for j in c["first_order"]]).build()
     engine = builder_with(history).build()
-    engine.sample_all_epochs()
+    if c.get("interleave"):
+        # results (and the accessors that consume the engine's kernel list) are asked for between the epochs - after
+        # the initial-values epoch, i.e. before any transition has been traced, and after every further epoch
+        while not engine.is_sampling_done():
+            engine.sample_next_epoch()
+            r = engine.get_results()
+            r.get_kernels_by_pos_key()
+            r.get_samples()
+    else:
+        engine.sample_all_epochs()
     samples = engine.get_results().get_samples()
     import numpy as np
     arr = {names[k]: np.asarray(samples[names[k]]) for k in stored}
@@ -408,7 +424,7 @@ def run_d_case(c):
 
 
 D_SCENARIOS = ["mixed", "all_reject", "gibbs_only", "mh_only", "natural", "raises", "var_names", "dict", "error_codes", "shared_reads",
-               "var_direct", "shared_name"]
+               "var_direct", "shared_name", "custom_nodes"]
 
 
 def direct_var_keys(R):
@@ -545,7 +561,13 @@ def make_d_case(rnd, quick, scenario, flavour, trace=False, iface=("liesel", Tru
                 # forced stratum: position key = variable name whose value node has a direct reader; LieselInterface
                 flavour, iface, nitems = "vars", ("liesel", rnd.random() < 0.5), max(nitems, 5)
             if scenario != "shared_name":
-                spec = c01.gen_spec(rnd, nitems, flavour)
+                # caching nodes outside the Calc / Dist classes (a harness subclass of lsl.Node, lsl.PIT -> PITCalc): in every
+                # second graph with probability 0.3 per item, in the forced stratum custom_nodes at least one per graph
+                cust = 0.5 if scenario == "custom_nodes" else (0.3 if rnd.random() < 0.5 else 0.0)
+                spec = c01.gen_spec(rnd, max(nitems, 5) if scenario == "custom_nodes" else nitems, flavour, custom=cust)
+                if scenario == "custom_nodes" and not any(it.get("cls") == "node" or it["k"] == "pit" or
+                                                          (it.get("dist") or {}).get("pit") for it in spec["items"]):
+                    continue
                 c = {"layer": "D", "model": "liesel", "spec": spec, "order_seed": rnd.randrange(2 ** 30),
                      "scenario": scenario, "flavour": flavour, "iface": iface[0], "auto_at_creation": iface[1]}
         try:
@@ -583,6 +605,9 @@ B_IDENTS = {
     "default": lambda rnd, n: [""] * n,
     # kernel objects re-used in a second builder in another order (they keep 'kernel_00', ... of the first build)
     "reused": lambda rnd, n: [""] * n,
+    # user-assigned unsorted identifiers AND engine.get_results() / accessors called between the epochs (sample_next_epoch,
+    # get_results, sample_next_epoch, ...): reading the results must not change the order the kernels run in
+    "results_between_epochs": lambda rnd, n: rnd.sample(["update_x", "copy_x_to_y", "zeta", "alpha", "m_step", "b2", "a10"], n),
 }
 
 
@@ -598,10 +623,13 @@ def make_b_case(rnd, scenario, nk=None, T=3):
         kernels.append({"kind": "gibbs", "keys": [[j, "node"]],
                         "prop_fs": [["aff", rnd.randint(1, 999), [rnd.randint(2, 9) for _ in args]]], "prop_args": [args]})
     idents = B_IDENTS[scenario](rnd, nk)
-    if scenario == "custom_unsorted" and idents == sorted(idents):
+    if scenario in ("custom_unsorted", "results_between_epochs") and idents == sorted(idents):
         idents = idents[::-1]
     c = {"layer": "D", "model": "dict", "via": "builder", "spec": spec, "scenario": "builder_" + scenario, "flavour": "dict",
          "kernels": kernels, "idents": idents, "T": T, "chains": rnd.choice([1, 2]), "seed": rnd.randrange(1000)}
+    if scenario == "results_between_epochs":
+        c["interleave"] = True
+        c["T"] = 4
     if scenario == "reused":
         fo = list(range(nk))
         while fo == list(range(nk)):
@@ -797,7 +825,8 @@ def oracle_d(c):
                             f"through the model configured at build time the iteration gives {dict((names[k], sim[k]) for k in bad)}, the "
                             f"engine stored {dict((names[k], got[k]) for k in bad)}"
                             + (f"; stored derived nodes {stale} differ from their recomputation by the configured model" if stale else ""))
-                return (f"iteration {t}: kernels added to the EngineBuilder in the order {ids} (blocks "
+                return (f"iteration {t}: " + ("engine.get_results() called between the epochs; " if c.get("interleave") else "")
+                        + f"kernels added to the EngineBuilder in the order {ids} (blocks "
                         f"{[[names[k] for k, _ in kern['keys']] for kern in c['kernels']]}); from the state {dict(zip(names, cur))} the "
                         f"configured order gives {dict(zip(names, sim))}, the engine stored {dict(zip(names, got))}")
             if c.get("chains_differ"):
@@ -936,8 +965,8 @@ def generate(ctx):
         i += 1
     # forced stratum: the kernel order configured through EngineBuilder.add_kernel (identifiers user-assigned and
     # unsorted / partly default / default / re-used objects), run by the real jitted Engine
-    bsc = ["custom_unsorted", "custom_first", "reused", "custom_unsorted", "reused", "default"] if ctx.quick else \
-          ["custom_unsorted", "custom_first", "reused", "default"] * 6
+    bsc = ["custom_unsorted", "custom_first", "reused", "results_between_epochs", "reused", "default", "results_between_epochs"] if ctx.quick else \
+          ["custom_unsorted", "custom_first", "reused", "default", "results_between_epochs"] * 6
     for j, sc in enumerate(bsc):
         cases.append(make_b_case(rnd, sc, nk=(2 + j % 3)))
     # ... and EngineBuilder histories in which set_model is called twice (a model under the same names replaced before
@@ -963,6 +992,11 @@ def generate(ctx):
             ctx.hist("D.kernels.%d" % len(c["kernels"]))
             if any(k == "T" for k in c["kinds"]):
                 ctx.hist("D.graph.has_transient")
+            items = (c.get("spec") or {}).get("items") or []
+            if any(it.get("cls") == "node" for it in items):
+                ctx.hist("D.graph.has_cached_lsl_Node_subclass")
+            if any(it.get("k") == "pit" for it in items):
+                ctx.hist("D.graph.has_PITCalc")
             if c["model"] == "liesel" and not c.get("via") and c.get("iface", "liesel") == "liesel":
                 class _R:
                     pass
@@ -1100,7 +1134,7 @@ def replay(rp) -> int:
         return c09_float.replay(c)
     cc = {k: c[k] for k in ("layer", "model", "spec", "scenario", "flavour", "order", "order_seed", "kernels", "iters", "seed", "trace",
                                   "via", "idents", "T", "chains", "first_order", "iface", "auto_at_creation",
-                                  "history", "spec_old") if k in c}
+                                  "history", "spec_old", "interleave") if k in c}
     try:
         cc = run_d_case(cc)
     except Exception as ex:
